@@ -140,6 +140,29 @@ var (
 	c17PrevBlob []byte
 )
 
+// c17NopRunsExact: every deleted entry at p with skip count k has p+k on the first entry behind its
+// run (or on the end of the tape). Number payload words are stepped over, not interpreted.
+func c17NopRunsExact(tape []uint64) error {
+	for i := 0; i < len(tape); i++ {
+		switch byte(tape[i] >> 56) {
+		case 'l', 'u', 'd', '"':
+			i++ // payload / length word
+		case 'N':
+			j := i
+			for j < len(tape) && byte(tape[j]>>56) == 'N' {
+				j++
+			}
+			for p := i; p < j; p++ {
+				if k := tape[p] & (1<<56 - 1); uint64(p)+k != uint64(j) {
+					return fmt.Errorf("entry %d: NOP skip %d lands on %d, its run ends at %d (tape %d)", p, k, uint64(p)+k, j, len(tape))
+				}
+			}
+			i = j - 1
+		}
+	}
+	return nil
+}
+
 // c17Dst: recycled Deserialize destination (single-threaded driver).
 var (
 	c17Dst *simdjson.ParsedJson
@@ -214,6 +237,43 @@ func (w *W) c17Judge(st *c01State, g string, doc []byte, nd bool) {
 			w.Count("serialize_roundtrip_failed_(C11)", 1)
 		} else {
 			w.c17Check(g, "deserialized", out, tapecheck.Options{AllowNop: true, NopExact: true}, cs, cfg)
+		}
+		// the last root entry itself replaced by null (supported: the tape then ends in a run of deleted
+		// entries, with no closing root behind it): after the round trip every skip count of that run
+		// still lands exactly on the end of the run, which here is the end of the tape
+		if (st.n+ci)%8 == 0 {
+			rn := pj.Clone(nil)
+			nulled := false
+			walk.Guard(func() error {
+				it := rn.Iter()
+				last := -1
+				for it.Advance() == simdjson.TypeRoot {
+					last++
+				}
+				it = rn.Iter()
+				for i := 0; i <= last; i++ {
+					it.Advance()
+				}
+				nulled = last >= 0 && it.SetNull() == nil
+				return nil
+			})
+			if nulled {
+				var rout *simdjson.ParsedJson
+				var rerr error
+				rp := walk.Guard(func() error {
+					rout, rerr = ser.Deserialize(ser.Serialize(nil, *rn), nil)
+					return nil
+				})
+				if rp != nil || rerr != nil {
+					w.Count("serialize_roundtrip_failed_(C11)", 1)
+				} else {
+					w.Eval(1)
+					w.Count("tapes_checked_deserialized-root-nulled", 1)
+					if err := c17NopRunsExact(rout.Tape); err != nil {
+						w.Violation("C17/deserialized-root-nulled/"+errClass(err)+"/"+genClass(g), fmt.Sprintf("tape rebuilt by Deserialize from a tape whose last root entry was replaced by null: %v (%s, doc=%s)", err, cfg, q(doc)), cs)
+					}
+				}
+			}
 		}
 		// with deleted members (NOP runs)
 		a := ref.Analyze(doc)
